@@ -221,13 +221,14 @@ enum { FAM_LOCALP = 0, FAM_WAVELET, FAM_SEQUENCE, FAM_GLOBAL, FAM_FOURIER, NFAM 
 static const char *famname[] = {"localp", "wavelet", "sequence", "global", "fourier"};
 struct Scn {
     int fam = 0, budget = 6, batch = 1, parallel = 0;
+    int rule2 = 0;   // 1: Global grid with rule rleja-shifted-even (two nodes on level 0: the first tensor is complete only after 2^d samples, checkpoints are written before that)
     int rjobs = 0;   // > 0: the RESTART runs in parallel mode with this many worker threads (the run that is killed stays sequential and deterministic: its event log defines the
                      // kill points); what is checked about the restart - nothing acknowledged is recomputed, the budget holds, the final surrogate interpolates - has to hold for every schedule
     int depth0 = 0;  // > 0: depth of the initial grid (Global / Fourier): its tensors then hold several points beyond the lower tensors, which the reader of the construction data has to re-associate
     int preload = 0; // > 0: the grid handed to constructSurrogate is a local polynomial grid of this depth with all its values loaded (>= 1000 points:
                      // constructSurrogate then keeps new samples in its CompleteStorage, so the checkpoints carry a non-empty sample store); budget = additional samples
-    std::string name() const{ return std::string(famname[fam]) + "/budget" + std::to_string(budget) + "/batch" + std::to_string(batch) + (parallel ? "/parallel1" : "/sequential") + (preload ? "/preloaded" + std::to_string(preload) : "") + (depth0 ? "/depth" + std::to_string(depth0) : "") + (rjobs ? "/restart-parallel" + std::to_string(rjobs) : ""); }
-    vf::J json() const{ vf::J j; j.s("fam", famname[fam]).i("budget", budget).i("batch", batch).i("parallel", parallel).i("preload", preload).i("depth0", depth0).i("rjobs", rjobs); return j; }
+    std::string name() const{ return std::string(famname[fam]) + "/budget" + std::to_string(budget) + "/batch" + std::to_string(batch) + (parallel ? "/parallel1" : "/sequential") + (preload ? "/preloaded" + std::to_string(preload) : "") + (depth0 ? "/depth" + std::to_string(depth0) : "") + (rjobs ? "/restart-parallel" + std::to_string(rjobs) : "") + (rule2 ? "/rleja-shifted-even" : ""); }
+    vf::J json() const{ vf::J j; j.s("fam", famname[fam]).i("budget", budget).i("batch", batch).i("parallel", parallel).i("preload", preload).i("depth0", depth0).i("rjobs", rjobs).i("rule2", rule2); return j; }
 };
 static const int DIMS = 2;
 static const int PRELOAD_DEPTH = 8;
@@ -243,7 +244,7 @@ static void make_grid(TasmanianSparseGrid &g, const Scn &s){
                            break;
         case FAM_WAVELET:  g.makeWaveletGrid(DIMS, 1, 0, 1); break;
         case FAM_SEQUENCE: g.makeSequenceGrid(DIMS, 1, 1, type_level, rule_rleja); break;
-        case FAM_GLOBAL:   g.makeGlobalGrid(DIMS, 1, s.depth0 ? s.depth0 : 1, type_level, rule_clenshawcurtis); break;
+        case FAM_GLOBAL:   g.makeGlobalGrid(DIMS, 1, s.depth0 ? s.depth0 : 1, type_level, s.rule2 ? rule_rlejashiftedeven : rule_clenshawcurtis); break;
         default:           g.makeFourierGrid(DIMS, 1, s.depth0 ? s.depth0 : 1, type_level); break;
     }
 }
@@ -599,6 +600,8 @@ static std::vector<Scn> scenarios(const std::string &tier){
         // the only way to a NON-EMPTY sample store in the checkpoint: a grid that already holds >= 1000 points (quick: batch 1 only, reduced torn offsets)
         if (budget == 6) for(int batch : (th ? std::vector<int>{1, 2} : std::vector<int>{1})){ Scn s; s.fam = FAM_LOCALP; s.budget = 4; s.batch = batch; s.preload = PRELOAD_DEPTH; v.push_back(s); }
     }
+    // a rule with two nodes on its lowest level: checkpoints exist before the first tensor is complete
+    { Scn s; s.fam = FAM_GLOBAL; s.budget = 6; s.batch = 1; s.rule2 = 1; v.push_back(s); }
     // parallel restarts (the remaining budget is then smaller than workers x batch near the end of the run)
     { Scn s; s.fam = FAM_SEQUENCE; s.budget = 12; s.batch = 1; s.rjobs = 4; v.push_back(s); }
     { Scn s; s.fam = FAM_LOCALP; s.budget = 6; s.batch = 2; s.rjobs = 2; v.push_back(s); }
@@ -635,7 +638,7 @@ int main(int argc, char **argv){
     if (A.has("--replay")){
         std::string v = vf::slurp(A.get("--replay")), cs = vf::jget(v, "case"); Scn s; std::string fam = vf::jget(cs, "fam");
         for(int f=0; f<NFAM; f++) if (fam == famname[f]) s.fam = f;
-        s.budget = atoi(vf::jget(cs, "budget").c_str()); s.batch = atoi(vf::jget(cs, "batch").c_str()); s.parallel = atoi(vf::jget(cs, "parallel").c_str()); s.preload = atoi(vf::jget(cs, "preload").c_str()); s.depth0 = atoi(vf::jget(cs, "depth0").c_str()); s.rjobs = atoi(vf::jget(cs, "rjobs").c_str());
+        s.budget = atoi(vf::jget(cs, "budget").c_str()); s.batch = atoi(vf::jget(cs, "batch").c_str()); s.parallel = atoi(vf::jget(cs, "parallel").c_str()); s.preload = atoi(vf::jget(cs, "preload").c_str()); s.depth0 = atoi(vf::jget(cs, "depth0").c_str()); s.rjobs = atoi(vf::jget(cs, "rjobs").c_str()); s.rule2 = atoi(vf::jget(cs, "rule2").c_str());
         KP kp{atol(vf::jget(cs, "k").c_str()), atol(vf::jget(cs, "b").c_str())};
         set_worker_dir(); Ref R = reference_run(s);
         if (!R.ok){ vf::emit(vf::J().s("t","error").s("what", R.err)); cleanup(); return 0; }
